@@ -14,8 +14,8 @@ Rec == ndJsonDeserialize(IOEnv.TRACE)
 Cfg == JsonDeserialize(IOEnv.CFG)
 Devs == {Cfg.devs[i] : i \in DOMAIN Cfg.devs}
 
-VARIABLES l, persisted, queue, upfail, strat, seen, used
-tvars == <<l, persisted, queue, upfail, strat, seen, used>>
+VARIABLES l, persisted, queue, upfail, strat, seen, attempt, used
+tvars == <<l, persisted, queue, upfail, strat, seen, attempt, used>>
 E == Rec[l]
 
 Success(cls) == cls \in {"ok", "value"}
@@ -25,22 +25,22 @@ Proj(db) == [id |-> db.id, strategy |-> db.strategy,
              keys |-> [k \in {j \in DOMAIN db.keys : db.keys[j][3] # "Deleted"} |->
                          <<db.keys[k][1], db.keys[k][2]>>]]
 
-TraceInit == l = 1 /\ persisted = <<>> /\ queue = {} /\ upfail = FALSE /\ strat = "disk" /\ seen = {} /\ used = {} /\ TLCSet(1, 0)
+TraceInit == l = 1 /\ persisted = <<>> /\ queue = {} /\ upfail = FALSE /\ strat = "disk" /\ seen = {} /\ attempt = <<>> /\ used = {} /\ TLCSet(1, 0)
 
 (* the storage strategy of the run (C18 cases carry it; everything else runs on disk) *)
 StratOf(e) == IF "meta" \in DOMAIN e THEN (IF "s3" \in DOMAIN e.meta THEN e.meta.s3 ELSE "disk") ELSE "disk"
 Reset == /\ E.ev = "reset" /\ persisted' = <<>> /\ queue' = {} /\ upfail' = FALSE /\ used' = {}
-         /\ strat' = StratOf(E) /\ seen' = {}
+         /\ strat' = StratOf(E) /\ seen' = {} /\ attempt' = <<>>
          /\ ((used # {}) => PrintT(<<"USED", Rec[l-1].run, used>>))
 
 SnapshotCmd ==
   /\ E.ev = "cmd" /\ E.op = "snapshot" /\ Success(E.cls)
   /\ queue' = queue \cup {E.names[i] : i \in DOMAIN E.names}
-  /\ UNCHANGED <<persisted, upfail, strat, seen, used>>
+  /\ UNCHANGED <<persisted, upfail, strat, seen, attempt, used>>
 
 OtherCmd ==
   /\ E.ev \in {"cmd", "close"} /\ ~(E.op = "snapshot" /\ Success(E.cls))
-  /\ UNCHANGED <<persisted, queue, upfail, strat, seen, used>>
+  /\ UNCHANGED <<persisted, queue, upfail, strat, seen, attempt, used>>
 
 TickDone ==
   /\ E.ev = "tick" /\ E.cls = "ok"
@@ -50,6 +50,7 @@ TickDone ==
   /\ upfail' = (upfail \/ E.putfail)
   \* every (key, value, version) a snapshot run wrote out (what a stale object can contain)
   /\ seen' = seen \cup UNION {{<<d, k, Proj(E.dbs[d]).keys[k]>> : k \in DOMAIN Proj(E.dbs[d]).keys} : d \in (queue \cap DOMAIN E.dbs)}
+  /\ attempt' = [d \in DOMAIN attempt \ queue |-> attempt[d]]     \* a completed snapshot supersedes a failed attempt
   /\ UNCHANGED <<strat, used>>
 
 (* C18: an upload that still fails after the retries is reported (the snapshot run ends *)
@@ -59,19 +60,38 @@ TickFailed ==
   \* (the panic poisons the snapshot queue lock: every later snapshot run of this process fails too)
   /\ "S3" \in {Cfg.checks[i] : i \in DOMAIN Cfg.checks} /\ (E.putfail \/ upfail)
   /\ queue' = {} /\ upfail' = TRUE
+  \* what the failed run tried to store: some of its objects may have been accepted before the failure
+  /\ attempt' = [d \in DOMAIN attempt \cup (queue \cap DOMAIN E.dbs) |->
+                   IF d \in queue /\ d \in DOMAIN E.dbs THEN Proj(E.dbs[d]) ELSE attempt[d]]
   /\ UNCHANGED <<persisted, strat, seen, used>>
 
-RestoredExactly == \A d \in DOMAIN persisted : d \in DOMAIN E.dbs /\ Proj(E.dbs[d]) = persisted[d]
+(* after a *reported* upload failure the objects of the failed run that were accepted before it are  *)
+(* in place next to the older ones: every key comes back with the value of the last completed        *)
+(* snapshot or of the reported attempt, and a key that both contain is not lost                      *)
+MixKeysOK(d) ==
+  LET r == Proj(E.dbs[d])
+      p == persisted[d]
+      a == attempt[d]
+  IN /\ \A k \in DOMAIN r.keys : \/ (k \in DOMAIN p.keys /\ r.keys[k] = p.keys[k])
+                                  \/ (k \in DOMAIN a.keys /\ r.keys[k] = a.keys[k])
+     /\ \A k \in DOMAIN p.keys \cap DOMAIN a.keys : k \in DOMAIN r.keys
+MixOK(d) == /\ Proj(E.dbs[d]).id = persisted[d].id /\ Proj(E.dbs[d]).strategy = persisted[d].strategy
+            /\ MixKeysOK(d)
+RestoredExactly == \A d \in DOMAIN persisted :
+                      /\ d \in DOMAIN E.dbs
+                      /\ \/ Proj(E.dbs[d]) = persisted[d]
+                         \/ (d \in DOMAIN attempt /\ MixOK(d))
 
 RestartOK ==
   /\ E.ev = "restart" /\ E.cls = "ok"
   /\ RestoredExactly = TRUE
   /\ queue' = {}
-  /\ UNCHANGED <<persisted, upfail, strat, seen, used>>
+  /\ UNCHANGED <<persisted, upfail, strat, seen, attempt, used>>
 
 (* ---------------- known findings (C18) ---------------- *)
 S3On == "S3" \in {Cfg.checks[i] : i \in DOMAIN Cfg.checks}
-KeysSame(d) == Proj(E.dbs[d]).keys = persisted[d].keys
+KeysSame(d) == \/ Proj(E.dbs[d]).keys = persisted[d].keys
+               \/ (d \in DOMAIN attempt /\ MixKeysOK(d))       \* after a reported upload failure
 MetaHard(d) == E.dbs[d].id = 1 /\ E.dbs[d].strategy = "arbiter"
 SubsetKeys(d) == \A k \in DOMAIN Proj(E.dbs[d]).keys :
                     k \in DOMAIN persisted[d].keys /\ Proj(E.dbs[d]).keys[k] = persisted[d].keys[k]
@@ -81,7 +101,7 @@ Dev_S3MetaHardcoded ==
   /\ "Dev_S3MetaHardcoded" \in Devs /\ S3On
   /\ E.ev = "restart" /\ E.cls = "ok" /\ RestoredExactly = FALSE
   /\ (\A d \in DOMAIN persisted : d \in DOMAIN E.dbs /\ KeysSame(d) /\ (Proj(E.dbs[d]) = persisted[d] \/ MetaHard(d))) = TRUE
-  /\ queue' = {} /\ UNCHANGED <<persisted, upfail, strat, seen>>
+  /\ queue' = {} /\ UNCHANGED <<persisted, upfail, strat, seen, attempt>>
   /\ used' = used \cup {"Dev_S3MetaHardcoded"}
 
 (* strategy s3: an incremental snapshot replaces both objects with only the changed keys: *)
@@ -93,7 +113,7 @@ Dev_S3IncrementalReplaces ==
   /\ (\A d \in DOMAIN persisted : d \in DOMAIN E.dbs /\ SubsetKeys(d)
                                     /\ ((Proj(E.dbs[d]).id = persisted[d].id /\ Proj(E.dbs[d]).strategy = persisted[d].strategy)
                                         \/ MetaHard(d))) = TRUE
-  /\ queue' = {} /\ UNCHANGED <<persisted, upfail, strat, seen>>
+  /\ queue' = {} /\ UNCHANGED <<persisted, upfail, strat, seen, attempt>>
   /\ used' = used \cup {"Dev_S3IncrementalReplaces"}
 
 (* strategy s3: a failed PutObject is ignored: the snapshot completes, the data is not there *)
@@ -101,10 +121,9 @@ Dev_S3IncrementalReplaces ==
 Dev_S3PutFailureSilent ==
   /\ "Dev_S3PutFailureSilent" \in Devs /\ S3On /\ upfail /\ strat = "s3"
   /\ E.ev = "restart" /\ E.cls = "ok" /\ RestoredExactly = FALSE
-  \* missing or stale: every restored key has a value and version that some snapshot run wrote
-  /\ (\A d \in DOMAIN persisted : d \in DOMAIN E.dbs =>
-         \A k \in DOMAIN Proj(E.dbs[d]).keys : <<d, k, Proj(E.dbs[d]).keys[k]>> \in seen) = TRUE
-  /\ queue' = {} /\ UNCHANGED <<persisted, upfail, strat, seen>>
+  \* (missing, stale, or -- when one of the two objects of a database was refused -- key records paired
+  \* with the value records of another snapshot: nothing can be said about the restored content)
+  /\ queue' = {} /\ UNCHANGED <<persisted, upfail, strat, seen, attempt>>
   /\ used' = used \cup {"Dev_S3PutFailureSilent"}
 
 (* the same finding, other manifestation: strategy s3 stores a database as two objects (keys,   *)
@@ -113,11 +132,11 @@ Dev_S3PutFailureSilent ==
 Dev_S3PutFailureSilent_NoStart ==
   /\ "Dev_S3PutFailureSilent" \in Devs /\ S3On /\ upfail /\ strat = "s3"
   /\ E.ev = "restart" /\ E.cls # "ok"
-  /\ queue' = {} /\ UNCHANGED <<persisted, upfail, strat, seen>>
+  /\ queue' = {} /\ UNCHANGED <<persisted, upfail, strat, seen, attempt>>
   /\ used' = used \cup {"Dev_S3PutFailureSilent"}
 Abandoned ==
   /\ E.ev = "abandon" /\ "Dev_S3PutFailureSilent" \in used
-  /\ UNCHANGED <<persisted, queue, upfail, strat, seen, used>>
+  /\ UNCHANGED <<persisted, queue, upfail, strat, seen, attempt, used>>
 
 TraceNext == l <= Len(Rec) /\ l' = l + 1 /\ (Reset \/ SnapshotCmd \/ OtherCmd \/ TickDone \/ TickFailed \/ RestartOK
               \/ Dev_S3MetaHardcoded \/ Dev_S3IncrementalReplaces \/ Dev_S3PutFailureSilent
